@@ -302,9 +302,44 @@ func c11Scenarios() []scenario {
 			m[parts[0]][parts[1]] = b.Good[mk]
 		}
 		text := gen.Text(prog)
-		out = append(out, scenario{Name: "base:" + b.Name, Text: text, Vars: vars, Bal: env.Bal{"a": {"USD": bi(10)}, "b": {"USD": bi(10)}}, Meta: m, UsesO: strings.Contains(text, "overdraft (")})
+		// the other assignment: every caller-supplied variable gets another value of its type
+		alt := map[string]string{}
+		for _, d := range prog.Vars {
+			if d.Origin == nil {
+				alt[d.Name.Name] = otherValueOf(d.Type.Name, vars[d.Name.Name])
+			}
+		}
+		if len(alt) == 0 {
+			alt = nil
+		}
+		out = append(out, scenario{Name: "base:" + b.Name, Text: text, Vars: vars, AltVars: alt, Bal: env.Bal{"a": {"USD": bi(10)}, "b": {"USD": bi(10)}}, Meta: m, UsesO: strings.Contains(text, "overdraft (")})
+	}
+	{
+		// literals whose parts are variables: [$cur 4] with the asset, {$p ...} with the portion,
+		// the account of an overdraft clause — evaluated afresh in every run of the same parsed script
+		mon := func(n string) gen.Expr { return &gen.MonLit{Asset: gen.V("cur"), Amt: gen.Num(n)} }
+		prog := &gen.Program{Vars: []*gen.VarDecl{{Type: &gen.TypeName{Name: "asset"}, Name: gen.V("cur")}, {Type: &gen.TypeName{Name: "portion"}, Name: gen.V("p")}, {Type: &gen.TypeName{Name: "account"}, Name: gen.V("w")}},
+			Stmts: []gen.Stmt{
+				&gen.Send{Sent: &gen.SentLit{E: mon("4")}, Src: lst(&gen.SrcOverdraft{Addr: gen.V("w"), Bounded: mon("1")}, sa("world")),
+					Dst: &gen.DstAllot{Items: []*gen.DstAllotItem{{A: gen.V("p"), To: &gen.To{D: da("x")}}, {A: &gen.Remaining{}, To: &gen.To{D: da("y")}}}}},
+				&gen.Call{Name: "set_tx_meta", Args: []gen.Expr{gen.Str("m"), mon("7")}},
+				&gen.Send{Sent: &gen.SentAll{Asset: gen.V("cur")}, Src: &gen.SrcCapped{Cap: mon("2"), From: &gen.SrcAccount{E: gen.V("w")}}, Dst: da("x")},
+			}}
+		out = append(out, scenario{Name: "literals-with-variable-parts", Text: gen.Text(prog), Vars: map[string]string{"cur": "USD", "p": "1/4", "w": "a"},
+			AltVars: map[string]string{"cur": "EUR", "p": "2/3", "w": "b"}, Bal: bal, Meta: meta})
 	}
 	return out
+}
+
+// otherValueOf: a value of the type that differs from cur.
+func otherValueOf(typ, cur string) string {
+	cands := map[string][]string{"number": {"7", "11"}, "monetary": {"EUR 4", "USD 9"}, "asset": {"EUR", "USD"}, "account": {"b", "x"}, "portion": {"1/4", "2/3"}, "string": {"other", "another"}}[typ]
+	for _, c := range cands {
+		if c != cur {
+			return c
+		}
+	}
+	return cur
 }
 
 var overdraftOn = map[string]struct{}{interpreter.ExperimentalOverdraftFunctionFeatureFlag: {}}
@@ -459,7 +494,19 @@ func runC11(w *mc.Worker) {
 							break
 						}
 						if sc.AltVars != nil {
-							RunReal(pr, copyVars(sc.AltVars), env.New(env.Exact, bb, sc.Meta), overdraftOn)
+							// the other assignment, after runs with the first one: judged against its own
+							// history-free reference too
+							gotAlt := outSig(RunReal(pr, copyVars(sc.AltVars), env.New(env.Exact, bb, sc.Meta), overdraftOn))
+							scAlt := sc
+							scAlt.Vars = sc.AltVars
+							if wantAlt, okA := freshResult(scAlt, bb); okA && gotAlt != wantAlt {
+								ca := c
+								ca.Vars = copyVars(sc.AltVars)
+								ca.Observed = "after earlier runs of the same parsed script with other variable values: " + gotAlt
+								ca.Expected = "in a fresh process: " + wantAlt
+								ca.Balances = balStr(bb)
+								w.Violation("C11.depends-on-history", "the result of a run depends on earlier runs (state kept in the parsed script or in package-level variables)", len(sc.Text), ca)
+							}
 						}
 						got := outSig(RunReal(pr, copyVars(sc.Vars), env.New(env.Exact, bb, sc.Meta), overdraftOn))
 						w.Eval(fmt.Sprintf("fresh|%s|%s", sc.Text, balStr(bb)), true, "history-free "+strings.SplitN(got, ":", 2)[0])
